@@ -26,7 +26,9 @@ def make_type(kind, w, enc, order, var=""):
         kw["context_calibrators"] = [calibrators.ContextCalibrator([comparisons.Comparison("1", "MODE", "==")], poly),
                                      calibrators.ContextCalibrator([comparisons.Comparison("0", "MODE", "<")], poly)]
     if kind == "int":
-        return parameter_types.IntegerParameterType("T", encodings.IntegerDataEncoding(w, enc, byte_order=ORD[order], **kw))
+        # "twosCompliment" [sic] is the spelling of XTCE 1.1 that the constructor's documentation recommends for two's complement
+        spelled = "twosCompliment" if var == "alias" and enc == "twosComplement" else enc
+        return parameter_types.IntegerParameterType("T", encodings.IntegerDataEncoding(w, spelled, byte_order=ORD[order], **kw))
     name = "MILSTD_1750A" if kind == "mil" else enc
     if var == "alias":
         # the tolerated legacy spellings of the two float formats (accepted with a warning) mean the same formats
@@ -103,7 +105,7 @@ def run(ctx):
         if hdr_off and kind == "int" and i % 3 == 0:
             offsets = list(offsets) + [o for o in hdr_off if o not in offsets]
         for off in offsets:
-            var = "ctx" if (i + off) % 5 == 0 else ("alias" if kind != "int" and (i + off) % 5 == 1 else ("xml", "xml-od", "")[(i + off) % 5 - 2] if (i + off) % 5 >= 2 else "")
+            var = "ctx" if (i + off) % 5 == 0 else ("alias" if (kind != "int" or enc == "twosComplement") and (i + off) % 5 == 1 else ("xml", "xml-od", "")[(i + off) % 5 - 2] if (i + off) % 5 >= 2 else "")
             ctx.count(("A", kind, tuple(bits), enc, order, off, var))
             ctx.traces += 1
             try:
@@ -155,7 +157,7 @@ def run(ctx):
             if w > 12:
                 for j in range(rng.randrange(4)):
                     bits[rng.randrange(w)] ^= 1
-        var = "ctx" if rng.random() < 0.3 else ("alias" if kind != "int" and rng.random() < 0.3 else rng.choice(["", "xml", "xml-od"]))
+        var = "ctx" if rng.random() < 0.3 else ("alias" if (kind != "int" or enc == "twosComplement") and rng.random() < 0.3 else rng.choice(["", "xml", "xml-od"]))
         try:
             lines.append(line_for(kind, bits, enc, order, off, rng, var))
         except Exception as e:  # noqa: BLE001
